@@ -35,7 +35,7 @@ package safehtml
 
 // font-family: every comma separated part, trimmed, is a quoted string or a generic family name.
 //@ lemma font_part(a, f, b) [C05]: inL(a, GO_SPACE_STAR) && inL(f, FONT_TRIMMED_OK) && inL(b, GO_SPACE_STAR) ==> inL(cat(a, f, b), FONT_PART_OK) by reglang
-//@ lemma font_quoted(f) [C05]: inL(f, PFX_22) && inL(f, SFX_22) ==> inL(f, FONT_TRIMMED_OK) by reglang
+//@ lemma font_quoted(f) [C05]: inL(f, RE_quotedFontFamilyName) ==> inL(f, FONT_TRIMMED_OK) by reglang
 //@ lemma font_generic(f) [C05]: inL(f, RE_genericFontFamilyName) ==> inL(f, FONT_TRIMMED_OK) by reglang
 //@ lemma font_list_safe(x) [C05]: inL(x, SEPLIST_FONT_PART_OK_2c) ==> inL(x, CSS_VALUE_SAFE) by reglang
 //@ func sanitizeFontFamily [C05]
@@ -55,22 +55,21 @@ package safehtml
 //@   use exit: url_abs_ok(s)
 //@   use exit: url_rel_ok(s)
 
-// background-image: no '<' or '>' anywhere; every comma separated part, trimmed, is wrapped in one of the three
-// url( ) forms. (What the loop establishes about the text between the wrapper is only urlIsSafe of the stripped
-// text; the scaffolding language BG_PART_OK keeps the wrapper facts.)
-//@ lemma bg_wrapped_dq(f) [C05]: inL(f, PFX_75726c2822) && inL(f, SFX_2229) ==> inL(f, BG_TRIMMED_OK) by reglang
-//@ lemma bg_wrapped_sq(f) [C05]: inL(f, PFX_75726c2827) && inL(f, SFX_2729) ==> inL(f, BG_TRIMMED_OK) by reglang
-//@ lemma bg_wrapped_un(f) [C05]: inL(f, PFX_75726c28) && inL(f, SFX_29) ==> inL(f, BG_TRIMMED_OK) by reglang
+// background-image: no '<' or '>' anywhere; every comma separated part, trimmed, is one of the three url( )
+// forms around a text U that contains no quote, parenthesis, backslash or white space and that urlIsSafe accepts.
+// U = the stripped text handed to urlIsSafe.
+//@ lemma bg_dq(x) [C05]: inL(x, NONE_OF_222728295c20090a0d0c_STAR) && inL(x, GO_URL_OK) ==> inL(cat("url(\"", x, "\")"), BG_TRIMMED_OK) by reglang
+//@ lemma bg_sq(x) [C05]: inL(x, NONE_OF_222728295c20090a0d0c_STAR) && inL(x, GO_URL_OK) ==> inL(cat("url('", x, "')"), BG_TRIMMED_OK) by reglang
+//@ lemma bg_un(x) [C05]: inL(x, NONE_OF_222728295c20090a0d0c_STAR) && inL(x, GO_URL_OK) ==> inL(cat("url(", x, ")"), BG_TRIMMED_OK) by reglang
 //@ lemma bg_part(a, f, b) [C05]: inL(a, GO_SPACE_STAR) && inL(f, BG_TRIMMED_OK) && inL(b, GO_SPACE_STAR) ==> inL(cat(a, f, b), BG_PART_OK) by reglang
 //@ lemma bg_list_safe(x) [C05]: inL(x, SEPLIST_BG_PART_OK_2c) && inL(x, NONE_OF_3c3e_STAR) ==> inL(x, CSS_VALUE_SAFE) by reglang
 //@ func sanitizeBackgroundImage [C05]
 //@   ensures inL(result, CSS_VALUE_SAFE)
 //@   loop 2 unroll
 //@   loop 1 invariant forall(k, 0, iter, inL(split(v, ",")[k], BG_PART_OK))
-//@   let T = u @ before urlIsSafe#1
-//@   use loop1.end: bg_wrapped_dq(trimmed(split(v, ",")[iter-1]))
-//@   use loop1.end: bg_wrapped_sq(trimmed(split(v, ",")[iter-1]))
-//@   use loop1.end: bg_wrapped_un(trimmed(split(v, ",")[iter-1]))
+//@   use loop1.end: bg_dq(u)
+//@   use loop1.end: bg_sq(u)
+//@   use loop1.end: bg_un(u)
 //@   use loop1.end: bg_part(trimLeft(split(v, ",")[iter-1]), trimmed(split(v, ",")[iter-1]), trimRight(split(v, ",")[iter-1]))
 //@   assume return.3: splitJoin(v, ",", BG_PART_OK)
 //@   use return.3: bg_list_safe(v)
